@@ -4,7 +4,8 @@
 import json, os, shutil, subprocess, sys, tempfile, glob
 man = json.load(open("/verif/MANIFEST.json"))
 ids = [c["property_id"] for c in man["checks"]]
-only = sys.argv[1:] 
+only = sys.argv[1:]
+BIN = os.environ.get("CEDARCHECK_BIN", "/verif/bin/cedarcheck")
 work = tempfile.mkdtemp(prefix="seeddetect-")
 res = {}
 try:
@@ -21,10 +22,16 @@ try:
         vdir = os.path.join(work, "v"); shutil.rmtree(vdir, ignore_errors=True); os.makedirs(vdir)
         shutil.copy("/verif/known_findings.json", vdir)
         caught = {}
-        for pid in ids:
-            q = subprocess.run(["/verif/bin/cedarcheck", "-property", pid, "-repo", scratch, "-verif", vdir], capture_output=True, text=True)
-            if q.returncode != 0:
-                caught[pid] = [l.strip()[:260] for l in q.stdout.splitlines() if l.strip().startswith(("VIOLATION ", "UNDECIDED "))][:4]
+        def run(pid):
+            vd = os.path.join(vdir, pid); os.makedirs(vd, exist_ok=True)
+            shutil.copy("/verif/known_findings.json", vd)
+            q = subprocess.run([BIN, "-property", pid, "-repo", scratch, "-verif", vd], capture_output=True, text=True)
+            return pid, q
+        from concurrent.futures import ThreadPoolExecutor
+        with ThreadPoolExecutor(max_workers=8) as ex:
+            for pid, q in ex.map(run, ids):
+                if q.returncode != 0:
+                    caught[pid] = [l.strip()[:260] for l in q.stdout.splitlines() if l.strip().startswith(("VIOLATION ", "UNDECIDED "))][:4]
         res[sid] = caught
         print(sid, "caught_by", list(caught.keys()))
 finally:
